@@ -181,9 +181,9 @@ def judge_values(case, r, execname):
     tgt_labels = {s.label for s in r["stores"]}
     if r["exc"] is not None:
         e = r["exc"]
-        wrote = [ev for ev in w.events(r["mark"]) if ev.store in tgt_labels and ev.op in ("set", "delete") and is_chunk_key(ev.key)]
+        wrote = [ev for ev in w.events(r["mark"]) if ev.store in tgt_labels and ev.op in ("set", "delete")]
         if wrote:
-            probs.append(("partial-write-before-error", f"{type(e).__name__}: {str(e)[:120]} raised after {len(wrote)} chunk writes to targets, first {wrote[0]}"))
+            probs.append(("partial-write-before-error", f"{type(e).__name__}: {str(e)[:120]} raised after {len(wrote)} writes (metadata or chunks) to targets, first {wrote[0]}"))
         elif type(e).__name__ not in EXPLICIT and not (set(c.__name__ for c in type(e).__mro__) & EXPLICIT):
             probs.append(("incidental-exception", f"{type(e).__name__}: {str(e)[:160]}"))
         elif all(x is not None for x in r["expected"]) and r["phase"] == "EXEC":
